@@ -1,89 +1,354 @@
-//! Fixed-capacity, heap-free executable model of the subset of indexmap::IndexMap used by aquatic.
-//! Capacity overflow is a harness error (kani::assume-d away by construction), not modelled behaviour.
+//! Fixed-capacity, heap-free executable model of the subset of `indexmap::IndexMap` used by aquatic (Kani only).
+//!
+//! It is an *assumed contract on a dependency in executable form*: insertion-ordered map with distinct keys;
+//! `insert` appends or overwrites in place; `swap_remove` moves the last entry into the hole; `retain` keeps order.
+//! Exceeding the capacity is a harness error (`assert!`), never modelled behaviour.
+//!
+//! Implementation note: every element access uses a LOOP-CONSTANT index (`while j < CAP { if j == i { .. } }`).
+//! CBMC 6.11 produced spurious counterexamples (not reproducible by native playback) when elements that contain
+//! byte arrays were read or moved at path-dependent indices; with loop-constant indices the artefact disappears.
 use std::marker::PhantomData;
+
 pub const CAP: usize = 8;
+
 pub mod map {
-    pub use super::{IndexMap, Slice, Entry, OccupiedEntry, VacantEntry};
+    pub use super::{Entry, IndexMap, OccupiedEntry, Slice, VacantEntry};
 }
-pub struct IndexMap<K, V, S = ()> { entries: [Option<(K, V)>; CAP], len: usize, _s: PhantomData<S> }
-impl<K: Clone, V: Clone, S> Clone for IndexMap<K, V, S> { fn clone(&self) -> Self { Self { entries: self.entries.clone(), len: self.len, _s: PhantomData } } }
-impl<K, V, S> std::fmt::Debug for IndexMap<K, V, S> { fn fmt(&self, f: &mut std::fmt::Formatter<'_>) -> std::fmt::Result { f.write_str("IndexMap(model)") } }
-impl<K, V, S> IndexMap<K, V, S> {
-    /// model-only accessors for harnesses
-    pub fn model_len(&self) -> usize { self.len }
-    pub fn model_entry(&self, i: usize) -> (&K, &V) { kv(&self.entries[i]) }
-    pub fn with_hasher(_s: S) -> Self { Self::default() }
-    pub fn with_capacity_and_hasher(_n: usize, _s: S) -> Self { Self::default() }
+
+pub struct IndexMap<K, V, S = ()> {
+    entries: [Option<(K, V)>; CAP],
+    len: usize,
+    _s: PhantomData<S>,
 }
-impl<K, V, S> Default for IndexMap<K, V, S> { fn default() -> Self { Self { entries: std::array::from_fn(|_| None), len: 0, _s: PhantomData } } }
+
+impl<K, V, S> Default for IndexMap<K, V, S> {
+    fn default() -> Self {
+        Self { entries: [None, None, None, None, None, None, None, None], len: 0, _s: PhantomData }
+    }
+}
+impl<K: Clone, V: Clone, S> Clone for IndexMap<K, V, S> {
+    fn clone(&self) -> Self {
+        Self { entries: self.entries.clone(), len: self.len, _s: PhantomData }
+    }
+}
+impl<K, V, S> std::fmt::Debug for IndexMap<K, V, S> {
+    fn fmt(&self, f: &mut std::fmt::Formatter<'_>) -> std::fmt::Result {
+        f.write_str("IndexMap(model)")
+    }
+}
+
 #[repr(transparent)]
-pub struct Slice<K, V> { entries: [Option<(K, V)>] }
-fn kv<K, V>(e: &Option<(K, V)>) -> (&K, &V) { match e { Some((k, v)) => (k, v), None => unreachable!() } }
-impl<K, V> Slice<K, V> {
-    fn from_slice(s: &[Option<(K, V)>]) -> &Self { unsafe { &*(s as *const [Option<(K, V)>] as *const Self) } }
-    pub fn keys(&self) -> impl Iterator<Item = &K> + '_ { self.entries.iter().map(|e| kv(e).0) }
-    pub fn iter(&self) -> impl Iterator<Item = (&K, &V)> + '_ { self.entries.iter().map(|e| kv(e)) }
-    pub fn len(&self) -> usize { self.entries.len() }
+pub struct Slice<K, V> {
+    entries: [Option<(K, V)>],
 }
-impl<K: Eq, V, S> IndexMap<K, V, S> {
-    pub fn len(&self) -> usize { self.len }
-    pub fn is_empty(&self) -> bool { self.len == 0 }
-    fn pos(&self, k: &K) -> Option<usize> { let mut i = 0; while i < self.len { if kv(&self.entries[i]).0 == k { return Some(i); } i += 1; } None }
-    pub fn get(&self, k: &K) -> Option<&V> { self.pos(k).map(|i| kv(&self.entries[i]).1) }
-    pub fn get_mut(&mut self, k: &K) -> Option<&mut V> { match self.pos(k) { Some(i) => self.entries[i].as_mut().map(|e| &mut e.1), None => None } }
-    fn push(&mut self, k: K, v: V) { assert!(self.len < CAP, "indexmap_model capacity"); self.entries[self.len] = Some((k, v)); self.len += 1; }
+
+fn kv<K, V>(e: &Option<(K, V)>) -> (&K, &V) {
+    match e {
+        Some((k, v)) => (k, v),
+        None => unreachable!(),
+    }
+}
+
+impl<K, V> Slice<K, V> {
+    fn from_slice(s: &[Option<(K, V)>]) -> &Self {
+        unsafe { &*(s as *const [Option<(K, V)>] as *const Self) }
+    }
+    pub fn keys(&self) -> impl Iterator<Item = &K> + '_ {
+        self.entries.iter().map(|e| kv(e).0)
+    }
+    pub fn iter(&self) -> impl Iterator<Item = (&K, &V)> + '_ {
+        self.entries.iter().map(|e| kv(e))
+    }
+    pub fn len(&self) -> usize {
+        self.entries.len()
+    }
+}
+
+impl<K, V, S> IndexMap<K, V, S> {
+    /// model-only accessors for harnesses (call them with loop-constant indices)
+    pub fn model_len(&self) -> usize {
+        self.len
+    }
+    pub fn model_entry(&self, i: usize) -> (&K, &V) {
+        let mut j = 0;
+        while j < CAP {
+            if j == i {
+                return kv(&self.entries[j]);
+            }
+            j += 1;
+        }
+        unreachable!()
+    }
+    pub fn with_hasher(_s: S) -> Self {
+        Self::default()
+    }
+    pub fn with_capacity_and_hasher(_n: usize, _s: S) -> Self {
+        Self::default()
+    }
+    pub fn len(&self) -> usize {
+        self.len
+    }
+    pub fn is_empty(&self) -> bool {
+        self.len == 0
+    }
+    pub fn shrink_to_fit(&mut self) {}
+    pub fn iter(&self) -> impl Iterator<Item = (&K, &V)> + '_ {
+        self.entries[..self.len].iter().map(|e| kv(e))
+    }
+    pub fn keys(&self) -> impl Iterator<Item = &K> + '_ {
+        self.entries[..self.len].iter().map(|e| kv(e).0)
+    }
+    pub fn values(&self) -> impl Iterator<Item = &V> + '_ {
+        self.entries[..self.len].iter().map(|e| kv(e).1)
+    }
+    pub fn get_range(&self, r: std::ops::Range<usize>) -> Option<&Slice<K, V>> {
+        self.entries[..self.len].get(r).map(Slice::from_slice)
+    }
+
+    fn take_at(&mut self, i: usize) -> Option<(K, V)> {
+        let mut out = None;
+        let mut j = 0;
+        while j < CAP {
+            if j == i {
+                out = self.entries[j].take();
+            }
+            j += 1;
+        }
+        out
+    }
+    fn put_at(&mut self, i: usize, e: Option<(K, V)>) {
+        let mut e = e;
+        let mut j = 0;
+        while j < CAP {
+            if j == i {
+                self.entries[j] = e.take();
+            }
+            j += 1;
+        }
+    }
+    fn push(&mut self, k: K, v: V) {
+        assert!(self.len < CAP, "indexmap_model capacity exceeded (harness error)");
+        let at = self.len;
+        self.put_at(at, Some((k, v)));
+        self.len = at + 1;
+    }
     fn swap_remove_index(&mut self, i: usize) -> (K, V) {
         let last = self.len - 1;
-        self.entries.swap(i, last);
+        let removed = self.take_at(i).unwrap();
+        if i != last {
+            let e = self.take_at(last);
+            self.put_at(i, e);
+        }
         self.len = last;
-        self.entries[last].take().unwrap()
+        removed
     }
-    pub fn insert(&mut self, k: K, v: V) -> Option<V> {
-        match self.pos(&k) { Some(i) => self.entries[i].as_mut().map(|e| std::mem::replace(&mut e.1, v)), None => { self.push(k, v); None } }
+    fn value_mut_at(&mut self, i: usize) -> &mut V {
+        let mut j = 0;
+        for e in self.entries.iter_mut() {
+            if j == i {
+                return match e {
+                    Some((_, v)) => v,
+                    None => unreachable!(),
+                };
+            }
+            j += 1;
+        }
+        unreachable!()
     }
-    pub fn swap_remove(&mut self, k: &K) -> Option<V> { match self.pos(k) { Some(i) => Some(self.swap_remove_index(i).1), None => None } }
+
     pub fn retain<F: FnMut(&K, &mut V) -> bool>(&mut self, mut f: F) {
-        let mut w = 0; let mut r = 0;
-        while r < self.len {
-            let keep = match self.entries[r].as_mut() { Some(e) => f(&e.0, &mut e.1), None => unreachable!() };
-            if keep { if w != r { self.entries.swap(w, r); } w += 1; } else { self.entries[r] = None; }
+        // pass 1: decide, in order; pass 2: stable compaction
+        let mut r = 0;
+        while r < CAP {
+            if r < self.len {
+                let keep = match &mut self.entries[r] {
+                    Some((k, v)) => f(&*k, v),
+                    None => unreachable!(),
+                };
+                if !keep {
+                    self.entries[r] = None;
+                }
+            }
             r += 1;
         }
-        self.len = w;
+        let mut j = 0;
+        let mut kept = 0;
+        while j < CAP {
+            if self.entries[j].is_none() {
+                let mut k = j + 1;
+                let mut done = false;
+                while k < CAP {
+                    if !done && self.entries[k].is_some() {
+                        let e = self.entries[k].take();
+                        self.entries[j] = e;
+                        done = true;
+                    }
+                    k += 1;
+                }
+            }
+            if self.entries[j].is_some() {
+                kept += 1;
+            }
+            j += 1;
+        }
+        self.len = kept;
     }
-    pub fn iter(&self) -> impl Iterator<Item = (&K, &V)> + '_ { self.entries[..self.len].iter().map(|e| kv(e)) }
-    pub fn keys(&self) -> impl Iterator<Item = &K> + '_ { self.entries[..self.len].iter().map(|e| kv(e).0) }
-    pub fn values(&self) -> impl Iterator<Item = &V> + '_ { self.entries[..self.len].iter().map(|e| kv(e).1) }
-    pub fn get_range(&self, r: std::ops::Range<usize>) -> Option<&Slice<K, V>> { self.entries[..self.len].get(r).map(Slice::from_slice) }
-    pub fn shrink_to_fit(&mut self) {}
     pub fn sort_unstable_by<F: FnMut(&K, &V, &K, &V) -> std::cmp::Ordering>(&mut self, mut f: F) {
-        let n = self.len; self.entries[..n].sort_unstable_by(|a, b| { let (ak, av) = kv(a); let (bk, bv) = kv(b); f(ak, av, bk, bv) })
+        let n = self.len;
+        self.entries[..n].sort_unstable_by(|a, b| {
+            let (ak, av) = kv(a);
+            let (bk, bv) = kv(b);
+            f(ak, av, bk, bv)
+        })
+    }
+}
+
+impl<K: Eq, V, S> IndexMap<K, V, S> {
+    fn pos(&self, k: &K) -> Option<usize> {
+        let mut found = None;
+        let mut j = 0;
+        while j < CAP {
+            if j < self.len && found.is_none() {
+                if kv(&self.entries[j]).0 == k {
+                    found = Some(j);
+                }
+            }
+            j += 1;
+        }
+        found
+    }
+    pub fn get(&self, k: &K) -> Option<&V> {
+        let mut j = 0;
+        while j < CAP {
+            if j < self.len {
+                let (kk, v) = kv(&self.entries[j]);
+                if kk == k {
+                    return Some(v);
+                }
+            }
+            j += 1;
+        }
+        None
+    }
+    pub fn contains_key(&self, k: &K) -> bool {
+        self.get(k).is_some()
+    }
+    pub fn get_mut(&mut self, k: &K) -> Option<&mut V> {
+        match self.pos(k) {
+            Some(i) => Some(self.value_mut_at(i)),
+            None => None,
+        }
+    }
+    pub fn insert(&mut self, k: K, v: V) -> Option<V> {
+        match self.pos(&k) {
+            Some(i) => Some(std::mem::replace(self.value_mut_at(i), v)),
+            None => {
+                self.push(k, v);
+                None
+            }
+        }
+    }
+    pub fn swap_remove(&mut self, k: &K) -> Option<V> {
+        match self.pos(k) {
+            Some(i) => Some(self.swap_remove_index(i).1),
+            None => None,
+        }
     }
     pub fn entry(&mut self, k: K) -> Entry<'_, K, V, S> {
-        match self.pos(&k) { Some(i) => Entry::Occupied(OccupiedEntry { m: self, i }), None => Entry::Vacant(VacantEntry { m: self, k }) }
+        match self.pos(&k) {
+            Some(i) => Entry::Occupied(OccupiedEntry { m: self, i }),
+            None => Entry::Vacant(VacantEntry { m: self, k }),
+        }
     }
 }
-pub enum Entry<'a, K, V, S = ()> { Occupied(OccupiedEntry<'a, K, V, S>), Vacant(VacantEntry<'a, K, V, S>) }
-pub struct OccupiedEntry<'a, K, V, S = ()> { m: &'a mut IndexMap<K, V, S>, i: usize }
-pub struct VacantEntry<'a, K, V, S = ()> { m: &'a mut IndexMap<K, V, S>, k: K }
-impl<'a, K: Eq, V, S> OccupiedEntry<'a, K, V, S> {
-    pub fn get(&self) -> &V { kv(&self.m.entries[self.i]).1 }
-    pub fn get_mut(&mut self) -> &mut V { match self.m.entries[self.i].as_mut() { Some(e) => &mut e.1, None => unreachable!() } }
-    pub fn into_mut(self) -> &'a mut V { match self.m.entries[self.i].as_mut() { Some(e) => &mut e.1, None => unreachable!() } }
-    pub fn swap_remove(self) -> V { self.m.swap_remove_index(self.i).1 }
+
+pub enum Entry<'a, K, V, S = ()> {
+    Occupied(OccupiedEntry<'a, K, V, S>),
+    Vacant(VacantEntry<'a, K, V, S>),
 }
-impl<'a, K: Eq, V, S> VacantEntry<'a, K, V, S> {
-    pub fn insert(self, v: V) -> &'a mut V { self.m.push(self.k, v); let n = self.m.len; match self.m.entries[n - 1].as_mut() { Some(e) => &mut e.1, None => unreachable!() } }
+pub struct OccupiedEntry<'a, K, V, S = ()> {
+    m: &'a mut IndexMap<K, V, S>,
+    i: usize,
 }
-impl<'a, K: Eq, V, S> Entry<'a, K, V, S> {
-    pub fn or_insert_with<F: FnOnce() -> V>(self, f: F) -> &'a mut V { match self { Entry::Occupied(o) => o.into_mut(), Entry::Vacant(v) => v.insert(f()) } }
-    pub fn or_insert(self, d: V) -> &'a mut V { self.or_insert_with(|| d) }
-    pub fn or_default(self) -> &'a mut V where V: Default { self.or_insert_with(V::default) }
+pub struct VacantEntry<'a, K, V, S = ()> {
+    m: &'a mut IndexMap<K, V, S>,
+    k: K,
+}
+impl<'a, K, V, S> OccupiedEntry<'a, K, V, S> {
+    pub fn get(&self) -> &V {
+        self.m.model_entry(self.i).1
+    }
+    pub fn get_mut(&mut self) -> &mut V {
+        self.m.value_mut_at(self.i)
+    }
+    pub fn into_mut(self) -> &'a mut V {
+        self.m.value_mut_at(self.i)
+    }
+    pub fn swap_remove(self) -> V {
+        self.m.swap_remove_index(self.i).1
+    }
+}
+impl<'a, K, V, S> VacantEntry<'a, K, V, S> {
+    pub fn insert(self, v: V) -> &'a mut V {
+        self.m.push(self.k, v);
+        let n = self.m.len;
+        self.m.value_mut_at(n - 1)
+    }
+}
+impl<'a, K, V, S> Entry<'a, K, V, S> {
+    pub fn or_insert_with<F: FnOnce() -> V>(self, f: F) -> &'a mut V {
+        match self {
+            Entry::Occupied(o) => o.into_mut(),
+            Entry::Vacant(v) => v.insert(f()),
+        }
+    }
+    pub fn or_insert(self, d: V) -> &'a mut V {
+        self.or_insert_with(|| d)
+    }
+    pub fn or_default(self) -> &'a mut V
+    where
+        V: Default,
+    {
+        self.or_insert_with(V::default)
+    }
 }
 impl<K: Eq, V, S> FromIterator<(K, V)> for IndexMap<K, V, S> {
-    fn from_iter<I: IntoIterator<Item = (K, V)>>(it: I) -> Self { let mut m = Self::default(); for (k, v) in it { m.insert(k, v); } m }
+    fn from_iter<I: IntoIterator<Item = (K, V)>>(it: I) -> Self {
+        let mut m = Self::default();
+        for (k, v) in it {
+            m.insert(k, v);
+        }
+        m
+    }
 }
 impl<K, V, S> IntoIterator for IndexMap<K, V, S> {
-    type Item = (K, V); type IntoIter = std::iter::Flatten<std::array::IntoIter<Option<(K, V)>, CAP>>;
-    fn into_iter(self) -> Self::IntoIter { self.entries.into_iter().flatten() }
+    type Item = (K, V);
+    type IntoIter = std::iter::Flatten<std::array::IntoIter<Option<(K, V)>, CAP>>;
+    fn into_iter(self) -> Self::IntoIter {
+        self.entries.into_iter().flatten()
+    }
+}
+
+#[cfg(test)]
+mod tests {
+    //! differential test against the real `indexmap` is in /verif/models/difftest (run by setup); these are smoke tests
+    use super::*;
+    #[test]
+    fn retain_keeps_order() {
+        let mut m: IndexMap<[u8; 6], ([u8; 20], bool, u32), ()> = IndexMap::default();
+        m.insert([1; 6], ([1; 20], true, 1));
+        m.insert([2; 6], ([2; 20], false, 10));
+        m.insert([3; 6], ([3; 20], false, 2));
+        m.insert([4; 6], ([4; 20], true, 20));
+        m.retain(|_, p| p.2 > 5);
+        assert_eq!(m.model_len(), 2);
+        assert_eq!(m.model_entry(0), (&[2u8; 6], &([2u8; 20], false, 10)));
+        assert_eq!(m.model_entry(1), (&[4u8; 6], &([4u8; 20], true, 20)));
+        assert_eq!(m.swap_remove(&[2; 6]), Some(([2u8; 20], false, 10)));
+        assert_eq!(m.model_entry(0).0, &[4u8; 6]);
+        assert_eq!(m.insert([4; 6], ([9; 20], false, 1)), Some(([4u8; 20], true, 20)));
+        *m.entry([7; 6]).or_insert(([7; 20], true, 7)) = ([8; 20], true, 8);
+        assert_eq!(m.get(&[7; 6]), Some(&([8u8; 20], true, 8)));
+        assert_eq!(m.len(), 2);
+    }
 }
